@@ -1,5 +1,4 @@
 import CanvasProofs.Lemmas.C19Ops
-import CanvasProofs.C07
 import Mathlib.Tactic.Ring
 import Mathlib.Tactic.Linarith
 /-! Helper lemmas for C19 over an ordered field: every transform function is a right multiplication,
@@ -11,6 +10,20 @@ open Canvas Canvas.C19 GenK
 variable {K : Type} [Field K] [LinearOrder K] [IsStrictOrderedRing K] [Env K] (cd : K → List K → K → List K × Bool)
 
 def identK : Mat K := ⟨1, 0, 0, 0, 1, 0⟩
+
+/-! The four laws of the generated `GenK.Matrix.Mul`/`Dot` (the definitions property C07 is about; C07 proves
+the same laws in CanvasProofs/C07.lean — restated here so that this file depends only on the generated
+definitions, not on another property's proof files). -/
+namespace M
+theorem mul_assoc (m q r : Mat K) : Matrix.Mul (Matrix.Mul m q) r = Matrix.Mul m (Matrix.Mul q r) := by
+  simp only [Matrix.Mul]; congr 1 <;> ring
+theorem identity_mul (m : Mat K) : Matrix.Mul identK m = m := by
+  cases m; simp [Matrix.Mul, identK]
+theorem mul_identity (m : Mat K) : Matrix.Mul m identK = m := by
+  cases m; simp [Matrix.Mul, identK]
+theorem dot_mul (m q : Mat K) (p : Pt K) : Matrix.Dot (Matrix.Mul m q) p = Matrix.Dot m (Matrix.Dot q p) := by
+  simp only [Matrix.Mul, Matrix.Dot]; congr 1 <;> ring
+end M
 
 /-- the matrix one transform function contributes -/
 def fnMatrix (f : String × List K) : Mat K := (xformStep (opsK cd) (identK, false) f).1
@@ -27,15 +40,69 @@ theorem xformStep_mul (m : Mat K) (e : Bool) (f : String × List K) :
 theorem foldl_xform (l : List (String × List K)) : ∀ (m : Mat K) (e : Bool),
     (l.foldl (xformStep (opsK cd)) (m, e)).1 = Matrix.Mul m (l.foldl (xformStep (opsK cd)) (identK, false)).1 := by
   induction l with
-  | nil => intro m e; simp only [List.foldl_nil]; exact (C07.mul_identity m).symm
+  | nil => intro m e; simp only [List.foldl_nil]; exact (M.mul_identity m).symm
   | cons f t ih =>
     intro m e
     simp only [List.foldl_cons]
     have h1 : xformStep (opsK cd) (m, e) f = ((xformStep (opsK cd) (m, e) f).1, (xformStep (opsK cd) (m, e) f).2) := rfl
     have h2 : xformStep (opsK cd) (identK, false) f = ((xformStep (opsK cd) (identK, false) f).1, (xformStep (opsK cd) (identK, false) f).2) := rfl
     rw [h1, h2, ih, ih (xformStep (opsK cd) (identK, false) f).1, xformStep_mul, xformStep_mul cd identK]
-    rw [show Matrix.Mul (identK : Mat K) (fnMatrix cd f) = fnMatrix cd f from C07.identity_mul _]
-    exact C07.mul_assoc _ _ _
+    rw [show Matrix.Mul (identK : Mat K) (fnMatrix cd f) = fnMatrix cd f from M.identity_mul _]
+    exact M.mul_assoc _ _ _
+
+/-! ## transform lists: product and error flag -/
+
+/-- the arity table of the six transform functions (anything else is ignored without error) -/
+def badArity (f : String × List K) : Bool :=
+  match f.1 with
+  | "matrix" => f.2.length != 6
+  | "translate" => f.2.length != 1 && f.2.length != 2
+  | "scale" => f.2.length != 1 && f.2.length != 2
+  | "rotate" => f.2.length != 1 && f.2.length != 3
+  | "skewx" => f.2.length != 1
+  | "skewy" => f.2.length != 1
+  | _ => false
+
+theorem len1 (l : List K) (h : ∀ a, ¬ l = [a]) : ¬ l.length = 1 := by
+  intro hl
+  rcases l with _ | ⟨a1, _ | ⟨a2, rest⟩⟩ <;> simp at hl
+  exact h _ rfl
+theorem len2 (l : List K) (h : ∀ a b, ¬ l = [a, b]) : ¬ l.length = 2 := by
+  intro hl
+  rcases l with _ | ⟨a1, _ | ⟨a2, _ | ⟨a3, rest⟩⟩⟩ <;> simp at hl
+  exact h _ _ rfl
+theorem len3 (l : List K) (h : ∀ a b c, ¬ l = [a, b, c]) : ¬ l.length = 3 := by
+  intro hl
+  rcases l with _ | ⟨a1, _ | ⟨a2, _ | ⟨a3, _ | ⟨a4, rest⟩⟩⟩⟩ <;> simp at hl
+  exact h _ _ _ rfl
+theorem len6 (l : List K) (h : ∀ a b c d e f, ¬ l = [a, b, c, d, e, f]) : ¬ l.length = 6 := by
+  intro hl
+  rcases l with _ | ⟨a1, _ | ⟨a2, _ | ⟨a3, _ | ⟨a4, _ | ⟨a5, _ | ⟨a6, _ | ⟨a7, rest⟩⟩⟩⟩⟩⟩⟩ <;> simp at hl
+  exact h _ _ _ _ _ _ rfl
+
+theorem xformStep_err (m : Mat K) (e : Bool) (f : String × List K) :
+    (xformStep (opsK cd) (m, e) f).2 = (e || badArity f) := by
+  obtain ⟨name, args⟩ := f
+  unfold xformStep
+  simp only []
+  split <;> simp_all [badArity]
+  all_goals first
+    | exact Or.inr (len6 _ (by assumption))
+    | exact Or.inr ⟨len1 _ (by assumption), len2 _ (by assumption)⟩
+    | exact Or.inr ⟨len1 _ (by assumption), len3 _ (by assumption)⟩
+    | exact Or.inr (len1 _ (by assumption))
+
+theorem transform_product_aux (l : List (String × List K)) : ∀ (m : Mat K) (e : Bool),
+    (l.foldl (xformStep (opsK cd)) (m, e)).1 = (l.map (fnMatrix cd)).foldl Matrix.Mul m ∧
+    (l.foldl (xformStep (opsK cd)) (m, e)).2 = (e || l.any badArity) := by
+  induction l with
+  | nil => intro m e; simp
+  | cons f t ih =>
+    intro m e
+    simp only [List.foldl_cons, List.map_cons, List.any_cons]
+    have h : xformStep (opsK cd) (m, e) f = ((xformStep (opsK cd) (m, e) f).1, (xformStep (opsK cd) (m, e) f).2) := rfl
+    rw [h, (ih _ _).1, (ih _ _).2, xformStep_mul, xformStep_err, Bool.or_assoc]
+    exact ⟨rfl, rfl⟩
 
 /-! ## shapes -/
 
